@@ -34,7 +34,8 @@ static void fill_tgsw(TGswSample *g, uint32_t x[KPL][PK + 1][PN]) {
 static void o_ringmul(uint32_t *r, const uint32_t *a, const uint32_t *b) {
     for (int i = 0; i < PN; i++) {
         uint32_t acc = 0;
-        for (int j = 0; j < PN; j++) { int k = i - j; if (k >= 0) acc += a[j] * b[k]; else acc -= a[j] * b[k + PN]; }
+        for (int j = 0; j <= i; j++) acc += a[j] * b[i - j];
+        for (int j = i + 1; j < PN; j++) acc -= a[j] * b[PN + i - j];
         r[i] = acc;
     }
 }
@@ -85,6 +86,7 @@ static uint32_t dg[KPL][PN];               /* the digits the stub handed out, bl
 static int dg_calls = 0, dg_bad = 0;
 static const TLweSample *dg_accum = 0;
 static IntPolynomial *dg_dest = 0;
+#if STUB_ON(stub_tGswTorus32PolynomialDecompH)
 extern "C" void STUBNAME(tGswTorus32PolynomialDecompH)(IntPolynomial *result, const TorusPolynomial *sample, const TGswParams *params) {
     /* contract (property C12): l digit polynomials with coefficients in [-Bg/2,Bg/2), source unchanged. Records which block is
        written from which source polynomial */
@@ -94,14 +96,15 @@ extern "C" void STUBNAME(tGswTorus32PolynomialDecompH)(IntPolynomial *result, co
     if (i == 0) dg_dest = result; else if (result != dg_dest + i * PL) dg_bad = 1;
     for (int q = 0; q < PL; q++)
         for (int j = 0; j < PN; j++) {
-            uint32_t d = nondet_u32();
-            int64_t sd = (int64_t) (int32_t) d, half = (int64_t) 1 << (PBGBIT - 1);
-            ASSUME(sd >= -half && sd < half);
+            uint32_t d = nondet_u32();    /* the coordinate identity below is a ring identity: it holds for arbitrary digit values,
+                                             so the range part of the contract is not even needed (and range assumptions on signed
+                                             values slow the integer encoding down to a timeout) */
             dg[i * PL + q][j] = d;
             result[q].coefs[j] = (int32_t) d;
         }
     dg_calls++;
 }
+#endif
 #ifndef EXTVAR    /* 0 tGswFFTExternMulToTLwe, 1 tGswExternMulToTLwe, 2 tGswExternProduct */
 #define EXTVAR 0
 #endif
@@ -130,7 +133,9 @@ HARNESS(h_extern_product) {
     for (int i = 0; i <= PK; i++) {
         uint32_t want[PN];
         for (int j = 0; j < PN; j++) want[j] = 0;
-        for (int r = KPL - 1; r >= 0; r--) {          /* oracle: different loop order */
+        for (int r = 0; r < KPL; r++) {               /* same association as the accumulation it specifies: a reversed order
+                                                         turns the query into re-association of 8-32 wrapped products, which no
+                                                         back-end finished in 600 s */
             uint32_t t[PN];
             o_ringmul(t, dg[r], rows[r][i]);
             for (int j = 0; j < PN; j++) want[j] += t[j];
@@ -183,8 +188,12 @@ static void ep_body(TLweSample *accum, const void *bki) {
     }
     ep_calls++;
 }
+#if STUB_ON(stub_tGswFFTExternMulToTLwe)
 extern "C" void STUBNAME(tGswFFTExternMulToTLwe)(TLweSample *accum, const TGswSampleFFT *gsw, const TGswParams *params) { ep_body(accum, gsw); }
+#endif
+#if STUB_ON(stub_tGswExternMulToTLwe)
 extern "C" void STUBNAME(tGswExternMulToTLwe)(TLweSample *accum, const TGswSample *gsw, const TGswParams *params) { ep_body(accum, gsw); }
+#endif
 void tfhe_MuxRotate_FFT(TLweSample *result, const TLweSample *accum, const TGswSampleFFT *bki, const int32_t barai, const TGswParams *bk_params);
 void tfhe_MuxRotate(TLweSample *result, const TLweSample *accum, const TGswSample *bki, const int32_t barai, const TGswParams *bk_params);
 #ifndef MUXFFT
@@ -238,7 +247,8 @@ static const void *mr_bk0 = 0;
 static size_t mr_stride = 0;
 static TLweSample *mr_accum = 0, *mr_last_dst = 0;
 static const TLweSample *mr_expect_src = 0;
-static uint32_t mr_val[PLN + 1][PK + 1][PN];
+static uint32_t mr_val[(PLN + 1) * (PK + 1) * PN];
+#define MRV(c, i, j) mr_val[((c) * (PK + 1) + (i)) * PN + (j)]
 static void mr_body(TLweSample *result, const TLweSample *accum, const void *bki, int32_t barai) {
     int c = mr_calls;
     if (c >= PLN) { mr_bad = 1; return; }
@@ -248,15 +258,19 @@ static void mr_body(TLweSample *result, const TLweSample *accum, const void *bki
     mr_idx[c] = (int) (((const char *) bki - (const char *) mr_bk0) / (long) mr_stride);
     if ((const char *) mr_bk0 + (size_t) mr_idx[c] * mr_stride != (const char *) bki) mr_bad = 1;
     mr_a[c] = barai;
-    for (int i = 0; i <= PK; i++) for (int j = 0; j < PN; j++) { mr_val[c][i][j] = nondet_u32(); result->a[i].coefsT[j] = (Torus32) mr_val[c][i][j]; }
+    for (int i = 0; i <= PK; i++) for (int j = 0; j < PN; j++) { MRV(c, i, j) = nondet_u32(); result->a[i].coefsT[j] = (Torus32) MRV(c, i, j); }
     mr_expect_src = result;
     mr_last_dst = result;
     mr_calls++;
 }
+#if STUB_ON(stub_MuxRotate_FFT)
 STUB_CXX(void, stub_MuxRotate_FFT, "_Z18tfhe_MuxRotate_FFTP10TLweSamplePKS_PK13TGswSampleFFTiPK10TGswParams",
          (TLweSample *result, const TLweSample *accum, const TGswSampleFFT *bki, const int32_t barai, const TGswParams *bk_params)) { mr_body(result, accum, bki, barai); }
+#endif
+#if STUB_ON(stub_MuxRotate)
 STUB_CXX(void, stub_MuxRotate, "_Z14tfhe_MuxRotateP10TLweSamplePKS_PK10TGswSampleiPK10TGswParams",
          (TLweSample *result, const TLweSample *accum, const TGswSample *bki, const int32_t barai, const TGswParams *bk_params)) { mr_body(result, accum, bki, barai); }
+#endif
 HARNESS(h_rotate_loop) {
     P p; mk(p);
     TLweSample *acc = new_TLweSample(p.tp);
@@ -285,7 +299,7 @@ HARNESS(h_rotate_loop) {
         }
     for (int i = 0; i <= PK; i++) for (int j = 0; j < PN; j++) {
         uint32_t want = a0[i][j];
-        for (int k = 0; k < PLN; k++) if (k == mr_calls - 1) want = mr_val[k][i][j];
+        for (int k = 0; k < PLN; k++) if (k == mr_calls - 1) want = MRV(k, i, j);
         symx_observe((uint32_t) acc->a[i].coefsT[j]);
         CHECK((uint32_t) acc->a[i].coefsT[j] == want, "C09 rotation loop: the last written buffer ends up in accum, for every parity");
     }
